@@ -32,13 +32,15 @@ type c19MemCase struct {
 	Off    []inObs  `json:"off,omitempty"`
 }
 
-// c19MemSlack: a quarter of what a copy of the constant's elements takes (16 bytes per element).
+// c19MemSlack: a quarter of what a copy of the constant's elements takes (16 bytes per element, 32 per pair).
 func c19MemSlack(ck constKind) int64 {
-	n := int64(300000)
-	if ck.name == "arr-huge-mixed" {
-		n = 24000
+	switch ck.name {
+	case "arr-huge-mixed":
+		return 24000 * 16 / 4
+	case "huge-map":
+		return 4000 * 32 / 4
 	}
-	return n * 16 / 4
+	return 300000 * 16 / 4
 }
 
 func c19MemSession(inputs []string, slack int64, noReg bool) []inObs {
